@@ -74,6 +74,17 @@ def dispatchOp (j : Json) : Except String Json := do
                       ("column", enc (columnGetRefs (← boolF j "has_table") (← boolF j "table_has_db")))])
   | _ => throw s!"dispatch {what}"
 
+def encPErr : Lex.PErr → Json
+  | .noColumns => Json.mkObj [("err", "noColumns")]
+  | .internal e => Json.mkObj [("err", "internal"), ("exc", e.name)]
+  | .lib n => Json.mkObj [("err", s!"lib:{n}")]
+  | .outOfModel w => Json.mkObj [("err", "outOfModel"), ("why", w)]
+
+def encOutcome : Build.Outcome → Json
+  | .ok d => Json.mkObj [("ok", encDb d)]
+  | .syntax => Json.mkObj [("err", "syntax")]
+  | .err e => encPErr e
+
 def handle (j : Json) : Except String Json := do
   let op ← (← j.getObjVal? "op").getStr?
   match op with
@@ -111,6 +122,9 @@ def handle (j : Json) : Except String Json := do
   | "sql_refs" =>
     let d ← Codec.db (← j.getObjVal? "db")
     pure (Json.mkObj [("refs", .arr (d.refs.map fun r => encR (Sql.renderRefTop d r)).toArray)])
+  | "parse" =>
+    let t ← strF j "text"
+    pure (encOutcome (Build.parse (← boolF j "allow_properties") t))
   | "hist" => Cont.runHist j
   | "dispatch" => dispatchOp j
   | "reorder" =>
